@@ -495,7 +495,9 @@ def check (ps : PState) (evLine : String) (obs : List String) (fault : Option St
             let nq := (dps.filter fun x => x.1 == seid && x.2.1 == "query" && x.2.2.1 == "urr" && x.2.2.2.1 == u).length
             let times := (expectQ.filter (· == u)).length
             -- Query URR IEs of the same request query the data plane too (immediate reports, not final ones)
+            -- (an Update URR for it returns reports as well; those carry neither flag; it does not query, though)
             let explicit := ((idRules "qurr").filter (· == u)).length
+            let others := explicit + ((idRules "uurr").filter (· == u)).length
             if nq < times || nq > times + explicit then
               fs := fs ++ [s!"C12 URR {u} of session {hexN seid} lost its last referring PDR in this request ({times} time(s)); its usage was queried {nq} time(s) — the final report is due exactly once"]
             else
@@ -504,7 +506,7 @@ def check (ps : PState) (evLine : String) (obs : List String) (fault : Option St
               let mine := rsp.filter (·.urr == u)
               -- (with a Query URR for the same URR in the request, its immediate reports sit next to the final one
               --  and cannot be told apart here: the flag is then judged by the lock-step comparison only)
-              if explicit == 0 && mine.any fun r => r.trig / Gen.report.USAR_TRIG_TERMR % 2 == 0 then
+              if others == 0 && mine.any fun r => r.trig / Gen.report.USAR_TRIG_TERMR % 2 == 0 then
                 fs := fs ++ [s!"C12 the final report of URR {u} (session {hexN seid}) is not marked as a termination report"]
         -- Remove URR: what the data plane returned for the removed URR comes back in this very response, flagged TERMR —
         -- whatever else the request does with that URR (a Query URR for it gives an immediate report next to it)
